@@ -383,11 +383,18 @@ def _wrap_gate(mon, orig, oracle):
             ba.apply_defaults()
             args = dict(ba.arguments)
             pre = snapshot(args['data']) if isinstance(args.get('data'), np.ndarray) else None
+            from rv.fingerprint import fp
+            fch = fp(args.get('channels'))
+            asked = list(args['channels']) if isinstance(args.get('channels'), list) else args.get('channels')
         except Exception:   # noqa  (bad call: let the real function produce its own error)
             pre = None
         out = orig(*a, **k)
         if pre is not None:
             try:
+                if 'channels' in args:
+                    mon.chk(fp(args['channels']) == fch, orig.__name__ + ':caller-argument-mutated', asked=core.jsonable(asked),
+                            now=core.jsonable(args['channels']))
+                    args['channels'] = asked
                 oracle(mon, pre, args, out)
             except Exception as e:   # noqa
                 mon.ctx.note('oracle-error %s: %s' % (orig.__name__, core.exc_str(e)))
@@ -617,10 +624,18 @@ Monitors.attach_stats = _attach_stats
 
 def _wrap_stat(mon, orig, name):
     def stat(data, channels=None):
+        from rv.fingerprint import fp
         pre = snapshot(data) if isinstance(data, np.ndarray) else None
+        fa = fp(channels)
+        asked = list(channels) if isinstance(channels, list) else channels
         out = orig(data, channels)
         if pre is not None:
             try:
+                # the request object stays the caller's: rewritten in place (e.g. negative positions resolved against THIS
+                # container's width) it asks for other channels of the next container it is used with
+                mon.chk(fp(channels) == fa, 'stat:caller-argument-mutated', stat=name, asked=core.jsonable(asked),
+                        now=core.jsonable(channels))
+                channels = asked
                 oracle_stat(mon, name, pre, data, channels, out)
             except Exception as e:   # noqa
                 mon.ctx.note('oracle-error stats.%s: %s' % (name, core.exc_str(e)))
@@ -903,9 +918,15 @@ def _wrap_hist_bins(mon, orig):
             pre_vals = np.array(np.asarray(self), dtype=float)
         except Exception:   # noqa
             pre_range = None
+        from rv.fingerprint import fp
+        fa = [fp(channels), fp(nbins), fp(scale)]
+        asked = [list(x) if isinstance(x, list) else x for x in (channels, nbins, scale)]
         out = orig(self, channels, nbins, scale, **kwargs)
         if pre_range is not None:
             try:
+                mon.chk([fp(channels), fp(nbins), fp(scale)] == fa, 'hist_bins:caller-argument-mutated',
+                        asked=core.jsonable(asked), now=core.jsonable([channels, nbins, scale]))
+                channels, nbins, scale = asked
                 oracle_hist_bins(mon, self, pre_range, pre_vals, channels, nbins, scale, kwargs, out)
             except Exception as e:   # noqa
                 mon.ctx.note('oracle-error hist_bins: ' + core.exc_str(e))
